@@ -619,12 +619,39 @@ def part_e(R, n):
             ctx.sample({"part": "E", "names": [x[0] for x in stmts], "params": params})
 
 
+class _Slice:
+    """ctx proxy: ``budget_ok()`` is True for the first ``min_calls`` calls whatever the
+    clock says (every part must observe something even on an overloaded machine), then
+    stops at a fraction of the soft deadline so that one part cannot starve the others"""
+
+    def __init__(self, ctx, frac, min_calls):
+        self._ctx, self._frac, self._left = ctx, frac, min_calls
+
+    def __getattr__(self, name):
+        return getattr(self._ctx, name)
+
+    def budget_ok(self):
+        import time
+
+        if self._left > 0:
+            self._left -= 1
+            return True
+        if time.monotonic() - self._ctx.t0 > self._frac * self._ctx.soft_s:
+            return False
+        return self._ctx.budget_ok()
+
+
 def run(ctx):
     R = Rig(ctx)
     try:
-        part_a(R, ctx.pick({"quick": 180, "thorough": 3000}))
+        # bounded parts first, each with its own slice of the budget; objects (part A) last
+        R.ctx = _Slice(ctx, 0.2, 12)
         part_bc(R, ctx.pick({"quick": 1, "thorough": 6}))
+        R.ctx = _Slice(ctx, 0.35, 3)
         part_d(R, ctx.pick({"quick": 8, "thorough": 300}))
+        R.ctx = _Slice(ctx, 0.5, 18)
         part_e(R, ctx.pick({"quick": 5, "thorough": 120}))
+        R.ctx = _Slice(ctx, 1.0, 40)
+        part_a(R, ctx.pick({"quick": 280, "thorough": 3000}))
     finally:
         R.engine.dispose()
